@@ -61,6 +61,45 @@ def fam_pairs(rng, n, prefix="pair"):
     return out
 
 
+def fam_lookup_race(rng, n, prefix="lk"):
+    """Accept(id) and the peer's Dial(id) issued at the same instant, free-running; the first goroutine
+    that reaches the slot lookup (inside the broker's critical section) stays there for a while
+    without blocking, so that the other one arrives meanwhile: lookup and insert must be one step."""
+    out = []
+    for i in range(n):
+        k = rng.randint(1, 3)
+        dials, accepts = [], []
+        for j in range(k):
+            dside = rng.choice("HP")
+            dials.append(call("d%d" % (j + 1), dside, 40 + j, 0))
+            accepts.append(call("a%d" % (j + 1), other(dside), 40 + j, 0))
+        sc = mk("%s%d" % (prefix, i), dials, accepts, mode="free", seed=rng.randint(1, 1 << 30), fam="lookup-race")
+        sc.update({"spin_id": 40 + rng.randrange(k), "spin_n": rng.choice([20000, 60000])})
+        out.append(sc)
+    return out
+
+
+def fam_down(rng, n, prefix="dn"):
+    """Calls in flight when the connection under the session is cut (the peer process dies): every call
+    must still return, nothing may be reported as established afterwards, no goroutine may stay."""
+    out = []
+    for i in range(n):
+        nd, na = rng.randint(1, 3), rng.randint(0, 3)
+        dials = [call("d%d" % (j + 1), rng.choice("HP"), rng.randint(10, 12), rng.choice([0, 1, 100, 2500, 4999, 5000, 5001])) for j in range(nd)]
+        accepts, used = [], set()
+        for j in range(na):
+            side, id_ = rng.choice("HP"), rng.randint(10, 12)
+            if (side, id_) in used:
+                continue
+            used.add((side, id_))
+            accepts.append(call("a%d" % (j + 1), side, id_, rng.choice([0, 1, 100, 2500, 4999, 5000, 5001])))
+        sc = mk("%s%d" % (prefix, i), dials, accepts, mode=rng.choice(["ctl", "ctl", "free"]), seed=rng.randint(1, 1 << 30),
+                lagpct=rng.choice([0, 0, 20]), fam="down")
+        sc.update({"down_at": rng.choice([1, 1, 50, 100, 2500, 4999, 5000, 5001, 7000]), "down_side": rng.choice("HP")})
+        out.append(sc)
+    return out
+
+
 def history_piece(rng, kind, id_, side, t0, idx):
     """One abusive history element on (id_, dial side). Returns dials, accepts, holds, duration."""
     d, a, h = [], [], []
